@@ -6,6 +6,7 @@ import Ipv8.C02.OldPayloads
 import Ipv8.C02.WF
 import Ipv8.C02.Dataclass
 import Ipv8.C02.Registry
+import Ipv8.C02.Frame
 
 namespace Ipv8.C02
 open Ipv8
@@ -497,5 +498,20 @@ def codeIsCanonical (p : Gen.PayloadDef) : Bool :=
   if p.kind == "old" then
     specialOld.contains p.name || c == canonicalCode p c.attrs (Old.identPos (Old.short p.name))
   else c == canonicalCode p p.names none
+
+/-! ### the datagram frame -/
+
+open Frame in
+theorem slice_lemma (h0 g m s : Bytes) (c : Nat) (hc : c ≤ h0.length) (_hs : 0 < s.length) :
+    sliceFromToMinus (h0 ++ (g ++ (m ++ s))) c s.length = h0.drop c ++ (g ++ m) := by
+  unfold sliceFromToMinus pySlice
+  rw [List.drop_append_of_le_length hc]
+  have hl : (h0 ++ (g ++ (m ++ s))).length - s.length - c = (h0.drop c ++ (g ++ m)).length := by
+    simp [List.length_drop]; omega
+  rw [hl]
+  have : h0.drop c ++ (g ++ (m ++ s)) = (h0.drop c ++ (g ++ m)) ++ s := by simp
+  rw [this, List.take_left']
+  rfl
+
 
 end Ipv8.C02
